@@ -64,6 +64,18 @@ func (t *Term) Has(prefix string) bool {
 	return found
 }
 
+// Contains reports whether some subterm's Op contains the substring.
+func (t *Term) Contains(sub string) bool {
+	found := false
+	t.Walk(func(x *Term) bool {
+		if strings.Contains(x.Op, sub) {
+			found = true
+		}
+		return !found
+	})
+	return found
+}
+
 // HasSuffix reports whether some subterm's Op ends with the suffix.
 func (t *Term) HasSuffix(suffix string) bool {
 	found := false
